@@ -172,7 +172,8 @@ class Tracer:
                 continue
             r = self.resolve(c_.fn, c_.args)
             if r is None:
-                if c_.fn[0] in ("param", "free", "local", "const", "attr", "sub", "ite", "call"):
+                if c_.fn[0] in ("param", "free", "local", "const", "attr", "sub", "ite", "call", "func", "closure", "boundcls"):
+                    # (a package function outside the metadata module that this analysis does not follow counts as unresolved too)
                     tr.facts.append(Fact("opaque", g, c_.node, c, trys + tuple(c_.trys), value=c_.fn,
                                          detail=f"call of {show(c_.fn)[:80]}"))
                 continue
